@@ -17,7 +17,8 @@ RULE = (
     "choice sequence and restores it. Decision: (a) defect 'none': check_grads must return normally in every trial; (b) defect cells: "
     "with m misses in N trials the cell violates iff the exact binomial tail P[X >= m | N, p = 0.01] < 1e-6, i.e. the miss rate is "
     "significantly above the allowed 1 % (a deterministic function of the seeds). Non-trivial = a defect cell, or a correct primitive "
-    "with complex / container arguments or order 2; distinct by cell. combo: combo_check over lists of 1-3 x 1-2 positional values and 1-3 x "
+    "with complex / container arguments or order 2; distinct by cell. One cell in four registers every rule twice - an earlier wrong version "
+    "first, then the intended one - so the verdict must follow the rule registered last. combo: combo_check over lists of 1-3 x 1-2 positional values and 1-3 x "
     "1-2 keyword values of a two-argument primitive whose VJP or JVP rule is wrong (factor 1.1 or sign) for exactly one drawn combination "
     "(or none), 20 trials, same binomial decision: every listed combination must actually be checked."
 )
@@ -30,11 +31,23 @@ def binom_tail(n, m, p=0.01):
     return sum(math.comb(n, k) * p ** k * (1 - p) ** (n - k) for k in range(m, n + 1))
 
 
-def build(family, shape, defect, eps, where, vseed):
-    """Return (function f(x), argument x0).  `where` in {'vjp', 'jvp'} says which rule carries the defect."""
+def build(family, shape, defect, eps, where, vseed, rereg=False):
+    """Return (function f(x), argument x0).  `where` in {'vjp', 'jvp'} says which rule carries the defect.  With rereg every rule is
+    registered twice: first an earlier, wrong version, then the intended one (the workflow of fixing a rule and re-running the checker)."""
     import autograd.numpy as anp
     from autograd.builtins import tuple as ab_tuple
     from autograd.extend import defjvp, defvjp, primitive
+
+    if rereg:
+        first_vjp, first_jvp = defvjp, defjvp
+
+        def defvjp(fun, *rules, **kw):  # noqa: F811
+            first_vjp(fun, *[(lambda ans, *a, **k: (lambda g: 0.37)) for _ in rules], **kw)
+            first_vjp(fun, *rules, **kw)
+
+        def defjvp(fun, *rules, **kw):  # noqa: F811
+            first_jvp(fun, *[(lambda g, ans, *a, **k: 0.37) for _ in rules], **kw)
+            first_jvp(fun, *rules, **kw)
 
     dv = defect if where == "vjp" else "none"
     dj = defect if where == "jvp" else "none"
@@ -255,10 +268,11 @@ def cell_body(trials, c):
         modes_req = "default"
     vseed = c.seed()
     base = c.seed()
+    rereg = c.chance(1, 4)
     sample = {"family": family, "defect": defect, "eps": eps if defect == "factor" else None, "where": where if defect != "none" else None,
-              "order": order, "modes": modes_req, "shape": list(shape), "trials": trials, "vseed": vseed, "seed_base": base}
+              "order": order, "modes": modes_req, "shape": list(shape), "trials": trials, "vseed": vseed, "seed_base": base, "registered_twice": rereg}
     try:
-        f, x0 = build(family, shape, defect, eps, where, vseed)
+        f, x0 = build(family, shape, defect, eps, where, vseed, rereg)
     except Exception as e:
         if not from_autograd(e):
             raise
@@ -296,8 +310,8 @@ def cell_body(trials, c):
     finally:
         onp.random.set_state(state)
     c.features.update({k: v for k, v in sample.items() if k not in ("vseed", "seed_base")})
-    cell = json.dumps([family, defect, eps if defect == "factor" else None, where if defect != "none" else None, order, modes_req, list(shape)])
-    labels = ["family=" + family, "defect=" + defect, f"order={order}", "modes=" + modes_req]
+    cell = json.dumps([family, defect, eps if defect == "factor" else None, where if defect != "none" else None, order, modes_req, list(shape), rereg])
+    labels = ["family=" + family, "defect=" + defect, f"order={order}", "modes=" + modes_req] + (["registered_twice"] if rereg else [])
     if defect == "none":
         if rejected:
             return fail("false_rejection", f"check_grads rejected a correct primitive in {rejected}/{trials} trials: {first_err or other_exc}",
